@@ -26,7 +26,8 @@ NS = "NanoVerif.WLearner."
 OBLIGATIONS = [NS + t for t in [
     "const_fit_optimal", "affine_fit_optimal", "affine_constant_branch_optimal", "running_moments_eq_prefix",
     "stump_fit_optimal", "stump_fit_eq_brute", "hinge_fit_eq_brute", "table_fit_eq_brute", "dstep_fit_optimal",
-    "fit_predict_reproduces_rss", "fit_assignment_independent",
+    "fit_predict_reproduces_rss", "fit_assignment_independent", "table_fit_assignment_independent",
+    "table_cache_eq_first_best", "old_fit_assignment_dependent",
     "predict_adds", "predict_missing_zero", "predict_eq_table_of_split", "scale_scales", "merge_preserves_sum",
     "mergeSort_sortSpec", "sweep_sound", "sweep_complete", "findHash_sorted",
 ]]
@@ -41,7 +42,9 @@ TRUSTED = [
     "Lean Float = g++ double for + - * / log in the same order (no -ffast-math, no FMA contraction on the x86-64 baseline); Eigen "
     "may sum the <= 3 outputs in another order: scores / tables / predictions are compared with rtol 1e-9, atol 1e-12",
     "std::sort returns a sorted permutation (SortSpec; List.mergeSort with the pair order is proved to be one); the pool hands "
-    "every feature chunk to exactly one worker (C17) - hypothesis hperm of fit_assignment_independent",
+    "every feature chunk to exactly one worker (C17) - hypothesis hperm of fit_assignment_independent - and every worker sees its "
+    "features in increasing index order (pool_t::map: chunks enqueued in order into a FIFO queue; hypothesis WorkersSorted, needed "
+    "for affine / stump / hinge only: the table caches compare (score, feature) themselves, table_fit_assignment_independent)",
     "tools/props/c10.py generator + independent python oracle (brute force over features x mid-point thresholds x directions / "
     "label sets with least-squares coefficients from centred sums); harness/c10.cpp; g++/libstdc++/Eigen",
 ]
@@ -52,9 +55,13 @@ ASSUMPTIONS = [
     "the fit of kbest / ksplit tables and of decision trees is not modelled: their fitted parameters are read from the "
     "implementation's answer (augmented op) and predict / split / scale / merge are evaluated on them; 'tree of depth 1 = stump' "
     "and 'the root of a tree is the stump' are checked by the oracle (bitwise) and through the modelled stump fit",
-    "selection-dependent fields are compared with the model only when the gap between the best and the second-best candidate "
-    "score exceeds 1e-9*max(1,|score|) (exact ties are broken by the thread schedule, C18); the oracle's clauses are independent "
-    "of the selection and always apply",
+    "selection-dependent fields are compared with the model when the gap between the best and the second-best candidate score "
+    "exceeds 1e-9*max(1,|score|) OR is exactly 0 (exact ties - duplicated columns, symmetric integer data - go to the smallest "
+    "feature index / the first candidate of the sweep since commits 62472c9 + 5de0896, for every thread count); only the band "
+    "0 < gap <= 1e-9*max(1,|score|) (winner decided by rounding) stays uncompared; the gap is the model's (driver at Float): an "
+    "exact tie of the model that is not one of the implementation (outputs summed in another order) would be a reported "
+    "correspondence difference; the oracle's clauses are independent of the model and always apply, among them: a selected "
+    "feature never has an identical column at a smaller index; the root of a tree is the stump fit, ties included",
     "oracle tolerance: |score - max(brute-force minimum RSS, 1e3*eps)| <= 1e-9 * max(1, sum of squared residuals of the fitted "
     "samples) + 1e3*eps; data are integers / dyadic / one-decimal values in [-30, 30] so that the accumulated sums are (nearly) "
     "exact; scalar features whose relative variance lies strictly between rounding noise and epsilon1 (1e-10) are not generated "
@@ -62,11 +69,13 @@ ASSUMPTIONS = [
     "memory safety (ASan/UBSan) is observed in the thorough tier only; dtree_wlearner_t::do_split reports groups() = leaves * "
     "outputs (element count of the tables, not rows): mirrored by the model, group ids are checked against the table rows",
 ]
-RULE = ("corpus (the three fixed defects: dstep all-missing feature, affine constant feature, kbest unsorted hashes) first; "
+RULE = ("corpus (the three fixed defects: dstep all-missing feature, affine constant feature, kbest unsorted hashes; duplicated "
+        "columns under 2..16 threads) first; "
         "exhaustive small: 3 samples x one scalar feature in {0, 1, missing}^3 x gradients {-1, 0, 1}^3 for stump / hinge / affine and "
         "one 2-class feature in {0, 1, missing}^3 for dense / dstep / kbest / ksplit (sampled 10% in quick, all 5103 in thorough); random "
         "structured: 2..60 samples (45% <= 8), 1..8 features grouped single-label / multi-label (1..6 classes, label sets from a small "
-        "pool or uniform) / scalar (small integers with ties, dyadic, one-decimal, two-valued, constant, duplicated column), missing "
+        "pool or uniform, 12% duplicated columns) / scalar (small integers with ties, dyadic, one-decimal, two-valued, constant, duplicated "
+        "column - 60% of those exact copies), missing "
         "rate 0 / 0.1 / 0.3 / 0.6 / all, 1..3 outputs, integer / quarter / sparse gradients (8% planted stump / table residuals -> "
         "clamped score), fitted sample lists: all / shuffled / subset / with repetitions / two samples, criterion rss 70%, "
         "threads 1..16, scale vector of size 1 or one factor per table row, 0..3 extra fits merged; affine on a constant non-dyadic "
@@ -185,6 +194,8 @@ def gen_scalar_feature(rng, N, others):
         vals = [c] * N
     else:
         vals = list(rng.choice(others)[1])
+        if rng.chance(0.6):
+            return ("F", vals)                      # an exact copy, missing values included: bit-identical scores
     pm = rng.choice([0.0, 0.0, 0.1, 0.3, 0.6])
     if rng.chance(0.02):
         pm = 1.0
@@ -192,7 +203,11 @@ def gen_scalar_feature(rng, N, others):
     return ("F", vals)
 
 
-def gen_class_feature(rng, N, kind):
+def gen_class_feature(rng, N, kind, others=()):
+    if others and rng.chance(0.12):
+        k, C, labs = rng.choice(list(others))        # duplicated column (exact tie); sometimes with other missing values
+        pm = rng.choice([0.0, 0.0, 0.0, 0.2])
+        return (k, C, [-1 if rng.chance(pm) else l for l in labs])
     C = rng.range(1, 6)
     pm = rng.choice([0.0, 0.0, 0.1, 0.3, 0.6])
     if rng.chance(0.02):
@@ -261,7 +276,13 @@ def gen_case(rng, kind=None, small=False):
         ns = rng.range(0, ncls); nm = ncls - ns
     if ns + nm + nf == 0:
         nf = 1
-    feats = [gen_class_feature(rng, N, "S") for _ in range(ns)] + [gen_class_feature(rng, N, "M") for _ in range(nm)]
+    feats = []
+    for _ in range(ns):
+        feats.append(gen_class_feature(rng, N, "S", feats))
+    ms = []
+    for _ in range(nm):
+        ms.append(gen_class_feature(rng, N, "M", ms))
+    feats += ms
     scal = []
     for _ in range(nf):
         scal.append(gen_scalar_feature(rng, N, scal))
@@ -629,6 +650,22 @@ def oracle(aug, res):
     if kind == "affine" and len(feat) == 1 and constant_feature(feat[0]):
         ckey = "affine:constant-feature"
 
+    # ---- (0) exact ties between identical columns are broken by the smallest feature index, whatever the thread count ----
+    def same_column(f, g):
+        if f[0] != g[0]:
+            return False
+        if f[0] == "F":
+            return all((f[1][i] == g[1][i]) or (not math.isfinite(f[1][i]) and not math.isfinite(g[1][i])) for i in samples)
+        return f[1] == g[1] and all((f[2][i] == g[2][i]) or (f[2][i] < 0 and g[2][i] < 0) for i in samples)
+
+    if kind != "dtree" and len(feat) == 1:
+        sel = feat[0]
+        for g in range(sel):
+            if same_column(c["feats"][g], c["feats"][sel]):
+                return fail("tie", f"feature {sel} was selected although feature {g} < {sel} has the same values on the fitted samples "
+                                   f"(bit-identical score): the tie must go to the smallest index ({c['threads']} threads)",
+                            "feature-tie:schedule-dependent-selection")
+
     # ---- (1) minimum RSS over the class ----
     if kind in OPTIMAL_KINDS and rss_crit:
         if kind == "affine":
@@ -805,15 +842,15 @@ def oracle(aug, res):
             return fail("depth1", "the tree is fitted but the stump is not")
         sscore, sfeat, sthr, srows = h2f(st[0]), int(st[1]), h2f(st[2]), int(st[3])
         stab = floats(st[4:])
-        _, gap = best_and_gap(brute)
-        tie = not (gap > 1e-9 * scale2)
         if c["p1"] == 1 and sscore != score:
             return fail("depth1", f"tree of depth 1 has score {score!r}, the stump {sscore!r}")
-        if not tie:
-            if not nodes or nodes[0][0] != sfeat or nodes[0][1] != sthr:
-                return fail("depth1", f"root node {nodes[:1]} differs from the stump (feature {sfeat}, threshold {sthr!r})")
-            if c["p1"] == 1 and (len(nodes) != 2 or tvals != stab or srows != nrows or nodes[0][2] != 0):
-                return fail("depth1", f"tree of depth 1 {nodes} {tvals} is not the stump {stab}")
+        # the root is fitted by the same stump fit on the same samples and gradients: the same answer, ties included (the
+        # tie-break no longer depends on the schedule)
+        if not nodes or nodes[0][0] != sfeat or nodes[0][1] != sthr:
+            return fail("depth1", f"root node {nodes[:1]} differs from the stump (feature {sfeat}, threshold {sthr!r})",
+                        "feature-tie:schedule-dependent-selection")
+        if c["p1"] == 1 and (len(nodes) != 2 or tvals != stab or srows != nrows or nodes[0][2] != 0):
+            return fail("depth1", f"tree of depth 1 {nodes} {tvals} is not the stump {stab}")
     return None
 
 
@@ -833,7 +870,10 @@ def same(a, b):
 
 
 def is_tie(gap, score):
-    return not (gap > 1e-9 * max(1.0, abs(score)))
+    """the band in which the selection is NOT compared: the runner-up is within rounding noise of the best score but not exactly
+    equal. An exact tie (gap == 0: duplicated columns, symmetric integer data) is decided by the smallest feature index /
+    the first candidate of the sweep since commits 62472c9 + 5de0896 and IS compared."""
+    return gap != 0.0 and not (gap > 1e-9 * max(1.0, abs(score)))
 
 
 def compare(aug, impl, model):
